@@ -119,7 +119,7 @@ def lcViolations (h : List Obs) : List (Nat × String) :=
   ++ h.filterMap (fun r => (panicViolation r).map (r.line, ·))
 
 /-- ResourceManager: `serr` = scripted failure of `create`; a successful `create` returns the call's id as instance. -/
-def rmCallViolation (inj : List (Nat × Nat)) (h : List Obs) (r : Obs) : Option String :=
+def rmCallViolation (nilJoin : Bool) (inj : List (Nat × Nat)) (h : List Obs) (r : Obs) : Option String :=
   let created := h.filter fun c => c.key = r.key && c.created
   match inj.lookup r.key with
   | some n =>
@@ -137,6 +137,11 @@ def rmCallViolation (inj : List (Nat × Nat)) (h : List Obs) (r : Obs) : Option 
       if l.key = r.key && l.ran && l.serr && !l.spanic && (l.id = r.id || callsOverlap l r) then none
       else some s!"rm-error: call {r.id} (key {r.key}) got the error of create {e} which it may not get"
     | none => some s!"rm-error: call {r.id} got an unknown error {e}"
+  | none, none =>
+    -- `(nil, nil)`: only from a user without the type assertion (collection.Cache.Take), as a joiner of a flight whose
+    -- loader panicked (what the code does; `takePanicDemo` in Props.lean)
+    if nilJoin && !r.ran && h.any (fun l => l.key = r.key && l.ran && l.spanic && l.id ≠ r.id && callsOverlap l r) then none
+    else some s!"rm: call {r.id} (key {r.key}) returned neither an instance nor an error"
   | _, _ => some s!"rm: call {r.id} returned neither exactly an instance nor exactly an error"
 
 def rmKeyViolations (h : List Obs) : List (Nat × String) :=
@@ -155,10 +160,10 @@ def rmPanicViolation (h : List Obs) (r : Obs) : Option String :=
   else if !r.ran && h.any (fun l => l.key = r.key && l.ran && l.spanic && l.id ≠ r.id && callsOverlap l r) then none
   else some s!"panic: call {r.id} on key {r.key} panicked although neither its own create nor the create of a flight it could join did"
 
-def rmViolations (inj : List (Nat × Nat)) (h : List Obs) : List (Nat × String) :=
+def rmViolations (nilJoin : Bool) (inj : List (Nat × Nat)) (h : List Obs) : List (Nat × String) :=
   exclusiveViolations h
   ++ rmKeyViolations h
-  ++ h.filterMap (fun r => if r.panicked then none else (rmCallViolation inj h r).map (r.line, ·))
+  ++ h.filterMap (fun r => if r.panicked then none else (rmCallViolation nilJoin inj h r).map (r.line, ·))
   ++ h.filterMap (fun r => if r.runs > 1 then some (r.line, s!"rm: create of call {r.id} executed {r.runs} times") else none)
   ++ h.filterMap (fun r => (stuckViolation r).map (r.line, ·))
   ++ h.filterMap (fun r => (rmPanicViolation h r).map (r.line, ·))
